@@ -174,6 +174,30 @@ func init() {
 					add(cacheIn{Cache: true, Case: c, Thr: thr, Seed: 12, MissPct: 30, DropPct: 30})
 				}
 			}
+			// dedicated: one keyword table (unsorted) used whole by a cacheable conjunction and as a PREFIX by later
+			// conjunctions of the same document (the harness hands the prefix over as a sub-slice of the same array): what
+			// the cache path does with the list it encodes must not change what the later expressions list
+			for _, kind := range []string{"kgroups", "compact"} {
+				strs := func(ss ...string) TV {
+					l := make([]TV, len(ss))
+					for i, s := range ss {
+						l[i] = tvStr(s)
+					}
+					return tvSlice("[]string", l...)
+				}
+				table := []string{"yoga", "kw2", "zebra", "apple", "kw1"}
+				c := eCase{Kind: kind, Policy: "error", Configs: map[int]string{1: "ac_matcher"}}
+				c.Docs = []eDoc{
+					{ID: 1, Cons: []eConj{{{F: 1, Inc: true, V: strs(table...)}}, {{F: 1, Inc: true, V: strs(table[:1]...)}, {F: 0, Inc: true, V: tvSlice("[]int", tvInt("int", 7))}}, {{F: 1, Inc: false, V: strs(table[:3]...)}, {F: 0, Inc: true, V: tvSlice("[]int", tvInt("int", 8))}}}},
+					{ID: 2, Cons: []eConj{{{F: 0, Inc: true, V: longInts(5)}}, {{F: 0, Inc: true, V: tvSlice("[]int", tvInt("int", 0), tvInt("int", 1))}, {F: 1, Inc: true, V: strs("apple")}}}},
+				}
+				for _, t := range []string{"yoga", "apple", "kw1", "zebra", "kw2", "none"} {
+					c.Queries = append(c.Queries, eQuery{A: []eAssign{{F: 1, V: tvStr(t)}, {F: 0, V: tvInt("int", 7)}}}, eQuery{A: []eAssign{{F: 1, V: tvStr(t)}, {F: 0, V: tvInt("int", 8)}}},
+						eQuery{A: []eAssign{{F: 1, V: tvStr(t)}, {F: 0, V: tvInt("int", 1)}}})
+				}
+				add(cacheIn{Cache: true, Case: c, Thr: 2, Seed: 71, MissPct: 0, DropPct: 0})
+				add(cacheIn{Cache: true, Case: c, Thr: 2, Seed: 72, MissPct: 100, DropPct: 0})
+			}
 			// dedicated: Skip policy, an unparseable conjunction immediately before conjunctions that are served from the
 			// cache on the warm builds (and one after them): the skipped one must not disturb its siblings
 			for _, kind := range []string{"kgroups", "compact"} {
